@@ -342,9 +342,35 @@ def run_case(case, obs):
                   f'{cname}.copy({field}=...) differs from the original in {diff}', 'copy-changes')
         obs.check(S.fingerprint(region) == fp0, 'copy-with-changes-mutates-original', f'{cname}.copy({field}=...) changed the original', 'copy-changes')
         obs.check(S.fingerprint(newval) == nv_fp, 'copy-with-changes-mutates-argument', f'{cname}.copy({field}=...) changed the value it was given', 'copy-changes')
+        # the fields NOT named are copies too: nothing mutable in common with the original
+        ids_r, ids_c = S.mutable_ids(region), S.mutable_ids(c)
+        shared_cw = set(ids_r) & set(ids_c)
+        obs.check(not shared_cw, 'copy-shares-mutable-state',
+                  f'{cname}.copy({field}=...) shares mutable objects with the original at {[ids_r[i] for i in list(shared_cw)[:4]]}', 'copy-independent')
         if hasattr(newval, '_params'):
             sh = set(S.mutable_ids(c.meta)) & set(S.mutable_ids(newval.meta)) | set(S.mutable_ids(c.visual)) & set(S.mutable_ids(newval.visual))
             obs.check(not sh, 'copy-shares-mutable-state', f'{cname}.copy({field}=X): the copy\'s own meta/visual are objects of X', 'copy-independent')
+    # --- a region is a value: asking it questions does not change it (it still equals the copy taken before, bit for bit)
+    before_q = region.copy()
+    import regions as _rq
+    try:
+        if isinstance(region, _rq.PixelRegion):
+            pcq = _rq.PixCoord(np.array([0.5, 3.0, -2.0]), np.array([1.0, 2.5, 7.0]))
+            region.contains(pcq)
+            pcq[0] in region
+            region.bounding_box
+            if cname not in ('PointPixelRegion', 'LinePixelRegion', 'TextPixelRegion'):
+                region.area
+                if region.bounding_box.shape[0] * region.bounding_box.shape[1] < 250000:
+                    region.to_mask()
+        repr(region), str(region)
+        region == before_q
+    except (NotImplementedError, ValueError):
+        pass
+    obs.count('queried-between-copy-and-compare')
+    obs.check(S.fingerprint(region) == fp0, 'query-changes-the-region', f'{cname}: contains / bounding_box / area / to_mask / repr / == changed the region: '
+              f'{S.diff_parts(S.fp_parts(before_q), S.fp_parts(region))}', 'copy-equal')
+    eq_bool(obs, region, before_q, True, 'copy-not-equal', f'{cname}: after being queried the region no longer equals the copy taken before', 'copy-equal')
     # --- equality
     eq_bool(obs, region, region, True, 'eq-not-reflexive', f'{cname} != itself', 'eq-reflexive-symmetric')
     twin = S.build(case['region'])
